@@ -4,6 +4,7 @@ mod c01;
 mod c01b;
 mod c02;
 mod c04;
+mod c05;
 mod c11;
 mod c12;
 mod c15;
@@ -57,6 +58,10 @@ fn main() {
         "C04" => {
             report = Report::new("C04", "scenarios (history prefix + changed tree + small block sizes); for EVERY operation of the fault-free backup trace x {not-found, already-exists, permission-denied, other} one run with that single fault (by OpId), plus random multi-fault runs (p = 1/20, 1/5); non-trivial = at least one operation actually failed; distinct by scenario seed and plan index");
             c04::run(&tier, seed, &mut report);
+        }
+        "C05" => {
+            report = Report::new("C05", "scenarios (history with several versions, garbage from deletes/interrupted runs); EVERY subset of (up to 5) existing versions x {dry-run, real}; for selected (thorough: all) real runs every crash point and every single failing read/list operation; non-trivial = something to delete or collect, or a crash/fault; distinct by scenario seed, subset and plan");
+            c05::run(&tier, seed, &mut report);
         }
         "C15" => {
             report = Report::new("C15", "(pattern set, apath) pairs: 1-3 exclusion patterns built from anchored/unanchored names, *, ?, ** in every position, classes, escapes, non-ASCII names, plus malformed patterns; apaths to depth 4 over a component alphabet; and (single glob, arbitrary string) pairs; non-trivial = the real code answers true; distinct by canonical text of the case");
